@@ -57,6 +57,54 @@ def read_pid(path):
         return -1
 
 
+def stop_scenario(daemon, base, idx, sig, delay):
+    """the stop request arrives right after the worker died abnormally (no worker is running, or the new one has just been
+    spawned): the watcher must still end supervision -- it exits, and no worker of its is left"""
+    d = os.path.join(base, "t%d" % idx)
+    shutil.rmtree(d, ignore_errors=True)
+    os.makedirs(d)
+    pidfile = os.path.join(d, "daemon.pid")
+    env = {k: v for k, v in os.environ.items() if not k.startswith(("NEW_RELIC_DAEMON_ROLE", "VERIF_"))}
+    w = subprocess.Popen([daemon, "--watchdog-foreground", "--pidfile", pidfile, "--address", "@verifst%d-%d" % (os.getpid(), idx),
+                          "--loglevel", "debug", "--logfile", os.path.join(d, "w.log")],
+                         cwd=d, env=env, stdin=subprocess.DEVNULL, stdout=subprocess.DEVNULL, stderr=subprocess.DEVNULL)
+    obs = {"signal": int(sig), "delay_ms": int(delay * 1000)}
+    try:
+        if not wait_for(lambda: read_pid(pidfile) == w.pid and children(w.pid), 10):
+            obs["note"] = "the daemon did not come up"
+            return obs
+        time.sleep(0.3)
+        kids = children(w.pid)
+        for c in kids:
+            try:
+                os.kill(c, sig)
+            except OSError:
+                pass
+        wait_for(lambda: not any(os.path.exists("/proc/%d" % c) and open("/proc/%d/stat" % c).read().split()[2] != "Z" for c in kids), 5)
+        time.sleep(delay)
+        os.kill(w.pid, signal.SIGTERM)
+        try:
+            w.wait(timeout=8)
+            obs["watcher_exited"] = True
+        except subprocess.TimeoutExpired:
+            obs["watcher_exited"] = False
+        obs["workers_left"] = len(children(w.pid)) if w.poll() is None else 0
+        return obs
+    finally:
+        if w.poll() is None:
+            for c in children(w.pid):
+                try:
+                    os.kill(c, signal.SIGKILL)
+                except OSError:
+                    pass
+            w.kill()
+        try:
+            w.wait(timeout=5)
+        except Exception:
+            pass
+        shutil.rmtree(d, ignore_errors=True)
+
+
 def one_scenario(daemon, base, idx, crashes):
     d = os.path.join(base, "s%d" % idx)
     shutil.rmtree(d, ignore_errors=True)
@@ -150,6 +198,24 @@ def run_stage(chk):
                                                             "listed signals, then start a second daemon with the same --pidfile"},
                          sig="c20-lock-lifetime")
                 break
+    # a stop request right after a crash
+    stops = [(K, 0.0), (S, 0.15), (K, 0.5)] if chk.tier == "quick" else [(K, 0.0), (K, 0.05), (S, 0.15), (A, 0.3), (K, 0.5), (K, 0.9), (S, 1.5)]
+    with ThreadPoolExecutor(max_workers=3) as ex:
+        sres = list(ex.map(lambda ip: stop_scenario(daemon, base, ip[0], ip[1][0], ip[1][1]), enumerate(stops)))
+    shutil.rmtree(base, ignore_errors=True)
+    sbad = 0
+    for i, o in enumerate(sres):
+        chk.count_case(["stop-after-crash", o])
+        if o.get("note"):
+            chk.fail("stopcrash_%d.txt" % i, "stop-after-crash scenario could not run: " + o["note"], no_input=True)
+        elif not o["watcher_exited"]:
+            sbad += 1
+            chk.fail("stopcrash_%d.json" % i, {"what": "a SIGTERM sent to the watcher %d ms after its worker was killed by signal %d did not end "
+                                                       "supervision: the watcher is still running after 8 s (%d worker(s) alive)"
+                                                       % (o["delay_ms"], o["signal"], o.get("workers_left", 0)), "observed": o,
+                                               "replay": "daemon --watchdog-foreground; kill the worker; SIGTERM the watcher after the given delay"},
+                     sig="c20-stop-after-crash")
+    chk.cov.setdefault("stages", {})["stop_after_crash"] = {"scenarios": len(stops), "violating": sbad}
     chk.cov.setdefault("stages", {})["lock_lifetime"] = {"scenarios": len(plans), "violating": bad}
     chk.sample("lock lifetime: %d watcher-role daemons whose worker was crashed %s: %d lost the pid-file lock / admitted a second daemon"
                % (len(plans), [[int(s) for s in p] for p in plans], bad))
